@@ -532,6 +532,22 @@ def run_check(mod, tier, seed, replay=None):
         write_json(path, what)
         print("VIOLATION property=%s replay=%s no-failing-input-found" % (prop, path))
         exit_code = 1
+    if herr:
+        # the implementation raised where the observation code of the harness expects none (the exception
+        # surfaced outside try_impl): the case itself is the failing input
+        impl_herr = [(c, r) for c, r in herr if os.path.join(REPO, "src") in r.get("tb", "")]
+        if impl_herr and not replay:
+            c, r = min(impl_herr, key=lambda cr: len(json.dumps(cr[0], default=str)))
+            h = hashlib.sha1(json.dumps(c, sort_keys=True, default=str).encode()).hexdigest()[:10]
+            path = os.path.join(rdir, "%s-%s.json" % (prop, h))
+            write_json(path, {"property": prop, "kind": "failing-input", "case": c,
+                              "impl_result": {"unexpected_exception": r["harness_error"], "traceback": r.get("tb", "")},
+                              "note": "the implementation raised while the harness was observing the object "
+                                      "(reading elements, snapshots, pickling): on the unchanged tree these observations never raise",
+                              "cases_affected": len(impl_herr), "seed": seed, "tier": tier,
+                              "how_to_replay": "./check %s --replay %s" % (prop, path)})
+            print("VIOLATION property=%s replay=%s" % (prop, path))
+            exit_code = 1
     if herr or not ok_spec:
         exit_code = exit_code or 2
 
